@@ -145,7 +145,9 @@ inductive Expr
   | some (e : Expr)                      -- `Option.Some(e)`
   | none                                 -- `Option.None`
   | ctor (v : Nat) (args : Exprs)        -- `E.V(args…)`
-  | record (fs : Exprs)
+  /-- record literal: `fs` are the field expressions AS WRITTEN; `perm[i]` is the position,
+      in the declaration of the record type, of the field the i-th written expression belongs to -/
+  | record (perm : List Nat) (fs : Exprs)
   | field (e : Expr) (i : Nat)
   | list (es : Exprs)
   | fstr (ps : Parts)
@@ -287,6 +289,20 @@ def patMatches (v : Val) : Pat → Bool
 def bindPat (env : Env) (v : Val) : Pat → Option Env
   | .wild => some env
   | .variant _ bs => bindAll bs (fieldsOf v) env
+
+/-- A record literal names every field of its type exactly once: `perm` (position in the
+    type of the i-th field as written) is a permutation of `0 … n-1`. -/
+def permOk (perm : List Nat) (n : Nat) : Bool :=
+  decide (perm.length = n) && perm.all (· < n) && decide perm.Nodup
+
+/-- The record value a literal builds: the i-th value AS WRITTEN lands in position `perm[i]`
+    of the record type (the field it was written for). -/
+def arrangeFrom (cur : List Int) : List Nat → List Int → List Int
+  | p :: ps, x :: xs => arrangeFrom (cur.set p x) ps xs
+  | _, _ => cur
+
+def arrange (perm : List Nat) (xs : List Int) : List Int :=
+  arrangeFrom (List.replicate xs.length 0) perm xs
 
 def showInt (v : Int) : String := toString v
 
@@ -439,9 +455,12 @@ def evalExpr (fns : List FnDef) : Nat → Env → Expr → R (Env × Val)
     | .ctor k args => do
       let (env, fs) ← evalInts fns n env args
       pure (env, .enm k fs)
-    | .record fs => do
-      let (env, fs) ← evalInts fns n env fs
-      pure (env, .recd fs)
+    | .record perm fs => do
+      -- the field expressions run in the order in which they are WRITTEN, whatever the order of
+      -- the fields in the record type; each value is stored in the field it was written for
+      let (env, xs) ← evalInts fns n env fs
+      if permOk perm xs.length then pure (env, .recd (arrange perm xs))
+      else .stuck "record literal: every field of the type exactly once"
     | .field e i => do
       let (env, v) ← evalExpr fns n env e
       match v with
